@@ -115,6 +115,10 @@ class C01(core.Check):
         if m3:
             # the write after the late chops against a fresh model run on all chops placed so far (M-HIST)
             reqs += self._model_requests(m3["internals"], m3["chops"])
+        m2 = (impl.get("second") or {}).get("model")
+        if m2:
+            # the write after vertex moves against a fresh model run on the new wire lengths (M-HIST with the calculator inside)
+            reqs += self._model_requests(m2["internals"], m2["chops"])
         reqs.append(pc.sched_request(impl["internals"]))
         return reqs
 
@@ -129,6 +133,12 @@ class C01(core.Check):
             why = self._model_compare(m3, model[k : 2 * k])
             if why:
                 why = "write after late chops (session of M-HIST): " + why
+        m2 = (impl.get("second") or {}).get("model")
+        if why is None and m2:
+            at = 2 * k if (m3 and len(model) > 2 * k) else k
+            why = self._model_compare(m2, model[at : at + k])
+            if why:
+                why = "write after vertex moves (session with changed wire lengths): " + why
         return why
 
     def oracle(self, case: dict, impl: Any) -> List[dict]:
